@@ -1137,6 +1137,17 @@ func (p Patch) test(doc *container, op Operation, options *ApplyOptions) error {
 	return fmt.Errorf("testing value %s failed: %w", path, ErrTestFailed)
 }
 
+// rootNode wraps the current document container in a node.
+func rootNode(c container) *lazyNode {
+	switch sv := c.(type) {
+	case *partialDoc:
+		return &lazyNode{doc: sv, which: eDoc}
+	case *partialArray:
+		return &lazyNode{ary: sv, which: eAry}
+	}
+	return nil
+}
+
 func (p Patch) copy(doc *container, op Operation, accumulatedCopySize *int64, options *ApplyOptions) error {
 	from, err := op.From()
 	if err != nil {
@@ -1152,6 +1163,11 @@ func (p Patch) copy(doc *container, op Operation, accumulatedCopySize *int64, op
 	val, err := con.get(key, options)
 	if err != nil {
 		return fmt.Errorf("error in copy for from: '%s': %w", from, err)
+	}
+
+	if from == "" {
+		// the whole document as it is now, not the text it was parsed from
+		val = rootNode(*doc)
 	}
 
 	path, err := op.Path()
